@@ -849,6 +849,42 @@ impl<C: Config, Q: Query> Snapshot<C, Q> {
         }
 
         if let Some(node_info) = new_node_info {
+            // The firewall set has been rebuilt from what the callees reach
+            // now, so what was seen of the callees' firewall sets has to be
+            // brought up to date with it. Otherwise a callee whose set later
+            // changes back to the stale observation looks unchanged and this
+            // query keeps a firewall set that misses what the callee reaches.
+            if let Some(observation) = self.forward_edge_observation().await {
+                let mut refreshed = (*observation.0).clone();
+
+                for (callee, seen) in &mut refreshed {
+                    if self.engine().get_query_kind(callee).await.is_firewall()
+                    {
+                        continue;
+                    }
+
+                    // SAFETY: the callees have just been repaired under the
+                    // current timestamp (see `should_recompute_query`).
+                    let callee_info = unsafe {
+                        self.engine().get_node_info_unchecked(callee).await
+                    };
+
+                    seen.seen_transitive_firewall_callees_fingerprint =
+                        callee_info.transitive_firewall_callees_fingerprint();
+                }
+
+                self.engine()
+                    .computation_graph
+                    .database
+                    .forward_edge_observation
+                    .insert(
+                        *self.query_id(),
+                        ForwardEdgeObservation::<C>(Arc::new(refreshed)),
+                        &mut tx,
+                    )
+                    .await;
+            }
+
             self.engine()
                 .computation_graph
                 .database
